@@ -45,6 +45,37 @@ def fileIds (us : List (List Nat)) : Option (List Nat) :=
       | .unsupported => none
       | .ok p => let (i, v') := v.fileId p; some (v', i :: out)) (some (Vfs.empty, []))).map (·.2.reverse)
 
+/-- history token: `f:<uri>` file_id, `g:` get_file_id, `r:` remove_file, `d:` read content,
+`s<tag>:` / `sn:` set_file_content(Some tag / None), `c` clear, `l` local ids -/
+def parseOp (tok : String) : Option (Op × List Nat) :=
+  match tok.splitOn ":" with
+  | ["c"] => some (.clear, [])
+  | ["l"] => some (.localIds, [])
+  | [k, h] => do
+    let u ← unhexBytes h
+    match k.toList with
+    | ['f'] => some (.fileId, u)
+    | ['g'] => some (.getFileId, u)
+    | ['r'] => some (.removeFile, u)
+    | ['d'] => some (.read, u)
+    | ['s', 'n'] => some (.setContent none, u)
+    | 's' :: ds => (String.ofList ds).toNat?.map fun t => (.setContent (some t), u)
+    | _ => none
+  | _ => none
+
+def showOut : Out → String
+  | .id i => toString i
+  | .optId o => Drv.showOptNat o
+  | .content o => "c" ++ Drv.showOptNat o
+  | .ids l => "[" ++ Drv.joinWith ";" (l.map toString) ++ "]"
+  | .unit => "-"
+
+/-- `clear` and `localIds` carry no URI: give them one inside the model's domain -/
+def withUri (o : Op × List Nat) : Op × List Nat :=
+  match o.1 with
+  | .clear | .localIds => (o.1, filePrefix ++ [47])
+  | _ => o
+
 def handle (op : String) (args : List String) : Option String :=
   match op, args with
   | "roundtrip", [h] => do
@@ -58,6 +89,11 @@ def handle (op : String) (args : List String) : Option String :=
     pure (match fileIds us with
       | none => "err unsupported"
       | some ids => "ok " ++ Drv.joinWith "," (ids.map toString))
+  | "history", toks => do
+    let ops ← toks.mapM parseOp
+    pure (match Vfs.empty.runStr (ops.map withUri) with
+      | none => "err unsupported"
+      | some outs => "ok " ++ Drv.joinWith "," (outs.map showOut))
   | "encrow", [n] => do
     let b ← n.toNat?
     pure ("ok " ++ hexOf (encByte b))
